@@ -1,16 +1,18 @@
 (* refcount: codec, eager schedule, observations, and the monitors of C08, C09, C10.
 
-   Config line:  C keepUnref
+   Config line:  C keepUnref [constValue]      (constValue = 1: the resolver returns the constant value 7 for every generation;
+                                                 then only the Access clauses 10.4 - 10.7 are judged)
    Events:   1 c        SetContext (c = 0: nil)
+             13 c res   the callback of Access consumer c returns: 0 nil, 1 its ctx.Err(), 10/11 an error of its own
              2 k        AddRef with callback kind k: 0 nil, 1 logging, 2 logging and calling released() of the value's generation
              3 r        Ref.Release of reference r (flag swap; if it is the first release, a release actor parks before removeRef)
              4 a        removeRef section of release actor a
              5 g        released() of goroutine g, called from outside the mutex (synchronous path)
              6 k        section of the k-th parked asynchronous released()
              7 g enter  resolve goroutine g leaves its first gate (enter: it called the resolver; used when both cases were ready)
-             8 g rel e  the resolver call on goroutine g returns value g+1, a release function iff rel, error e (0 nil, >= 2)
+             8 g rel e  the resolver call on goroutine g returns value g+1 (7 if constValue), a release function iff rel, error e (0 nil, >= 2)
              9 g        the store section of goroutine g
-             10 k       start a consumer: 0 Wait, 1 ResolveWithReleased
+             10 k       start a consumer: 0 Wait, 1 ResolveWithReleased, 2 Access
              11 c       cancel consumer c's context
              12 c       the goroutine spawned by consumer c's WaitWithReleased callback: removeRef section, then released()
    Observation after every event:
@@ -20,7 +22,9 @@
      nrel  the release-function calls made during this event: which, the target's content at that moment, number of present
            references whose last notification was that value
      relact code 1 parked, 5 done; consumer code 2 blocked, 3 returned (v, e, still holding its reference); fired = released-callback
-     invocations; firepc 0 none, 1 its goroutine is parked, 5 done. *)
+     invocations; firepc 0 none, 1 its goroutine is parked, 5 done.
+     Access consumers: code 6 inside the callback (v = the value it was called with, held = 1 iff its context is cancelled now),
+     2 waiting / inside its final Release, 3 returned (v = the returned error code: 0 nil, 1 Canceled, else an error; e = 0). *)
 From Util Require Import Common.Base Common.ListLemmas RefCount.Model.
 Open Scope N_scope.
 
@@ -29,11 +33,12 @@ Definition nn := N.of_nat.
 Definition nb (x : bool) : N := if x then 1 else 0.
 Definition nz (n : N) : bool := negb (N.eqb n 0).
 
-Record hst := { hs : st; hrel : nat }.
+Record hst := { hs : st; hrel : nat; hconst : bool }.
 
 Definition hinit (cfg : list N) : option hst :=
   match cfg with
-  | [k] => Some {| hs := init (nz k); hrel := 0 |}
+  | [k] => Some {| hs := init (nz k); hrel := 0; hconst := false |}
+  | [k; c] => Some {| hs := init (nz k); hrel := 0; hconst := nz c |}
   | _ => None
   end.
 
@@ -58,6 +63,8 @@ Definition racode (x : relact) : list N := [match ra_pc x with RGate => 1 | RDon
 Definition ccode (x : cons) : list N :=
   (match cpcv x with
    | CRet v e h => [3; nn v; nn e; nb h]
+   | CAccCb v => [6; nn v; 0; nb (ac_cbcanc x || ccanc x)]
+   | CAccRet code => [3; nn code; 0; 0]
    | _ => [2; 0; 0; 0]
    end) ++ [nn (ww_fired x); match ww_firepc x with None => 0 | Some RGate => 1 | Some RDone => 5 end].
 
@@ -79,11 +86,13 @@ Definition hstep (h : hst) (e : list N) : option (hst * list N) :=
   let s := hs h in
   let fin (s' : st) (rets : list N) :=
     let s'' := settle s' in
-    Some ({| hs := s''; hrel := length (rellog s'') |}, obs_of rets s'' (hrel h)) in
+    Some ({| hs := s''; hrel := length (rellog s''); hconst := hconst h |}, obs_of rets s'' (hrel h)) in
   match e with
   | [1; c] => let '(s', u) := set_context s (n2n c) in fin s' [nb u]
   | [2; k] => if N.leb k 2 then let s' := add_ref repaired s (kind_of (n2n k)) in fin s' [nb (panicked s')] else None
-  | [3; r] => if Nat.ltb (n2n r) (length (refs s)) then fin (release_call s (n2n r)) [] else None
+  | [3; r] => if Nat.ltb (n2n r) (length (refs s))
+              then match rkind (nth (n2n r) (refs s) ref0) with KAccess _ => None | _ => fin (release_call s (n2n r)) [] end
+              else None
   | [4; a] =>
     match nth_error (relacts s) (n2n a) with
     | Some x => match ra_pc x with RGate => fin (release_section s (n2n a)) [] | RDone => None end
@@ -107,7 +116,7 @@ Definition hstep (h : hst) (e : list N) : option (hst * list N) :=
   | [8; g; hr; er] =>
     match nth_error (gs s) (n2n g) with
     | Some x => match gpcv x with
-                | GInRes => if N.eqb er 1 then None else fin (resolver_return s (n2n g) (S (n2n g)) (nz hr) (n2n er)) []
+                | GInRes => if N.eqb er 1 then None else fin (resolver_return s (n2n g) (if hconst h then 7%nat else S (n2n g)) (nz hr) (n2n er)) []
                 | _ => None
                 end
     | None => None
@@ -117,7 +126,16 @@ Definition hstep (h : hst) (e : list N) : option (hst * list N) :=
     | Some x => match gpcv x with GStore _ _ _ => fin (store s (n2n g)) [] | _ => None end
     | None => None
     end
-  | [10; k] => if N.leb k 1 then fin (start_consumer repaired s (match k with 0 => CKWait | _ => CKWwr end)) [] else None
+  | [10; k] => if N.leb k 2 then fin (start_consumer repaired s (match k with 0 => CKWait | 1 => CKWwr | _ => CKAccess end)) [] else None
+  | [13; c; res] =>
+    match nth_error (conss s) (n2n c) with
+    | Some x => match ck x, cpcv x with
+                | CKAccess, CAccCb _ => if N.eqb res 0 || N.eqb res 1 || N.eqb res 10 || N.eqb res 11
+                                        then fin (cb_return repaired s (n2n c) (n2n res)) [] else None
+                | _, _ => None
+                end
+    | None => None
+    end
   | [11; c] =>
     match nth_error (conss s) (n2n c) with
     | Some x => if ccanc x then None else fin (step repaired s (EConsCancel (n2n c))) []
@@ -215,12 +233,23 @@ Record mst := {
   m_inval : list bool;              (* per consumer: its returned value was invalidated while it held the reference *)
   m_ckind : list N;                 (* per consumer: 0 Wait, 1 ResolveWithReleased *)
   m_cret : list bool;               (* per consumer: already returned *)
+  m_const : bool;                   (* constant resolver value: only the Access clauses are judged *)
+  m_gs : list N;                    (* goroutine codes of the previous observation *)
+  m_ccanc : list bool;              (* per consumer: the caller's context was cancelled *)
+  m_acb : list bool;                (* per Access consumer: inside its callback at the previous observation *)
+  m_acanc : list bool;              (* ... and its callback context was cancelled then *)
+  m_ainv : list bool;               (* ... the value of the running invocation was invalidated since the invocation started *)
+  m_adec : list (option (N * bool));(* per Access consumer: it decided to return: expected code, decided by a callback result *)
 }.
 
 Definition minit (cfg : list N) : option mst :=
   match cfg with
   | [k] => Some {| m_keep := nz k; m_ctx := 0; m_in := []; m_kind := []; m_raref := []; m_cref := []; m_out := []; m_called := [];
-                   m_cur := None; m_ng := 0; m_inval := []; m_ckind := []; m_cret := [] |}
+                   m_cur := None; m_ng := 0; m_inval := []; m_ckind := []; m_cret := []; m_const := false; m_gs := [];
+                   m_ccanc := []; m_acb := []; m_acanc := []; m_ainv := []; m_adec := [] |}
+  | [k; c] => Some {| m_keep := nz k; m_ctx := 0; m_in := []; m_kind := []; m_raref := []; m_cref := []; m_out := []; m_called := [];
+                      m_cur := None; m_ng := 0; m_inval := []; m_ckind := []; m_cret := []; m_const := nz c; m_gs := [];
+                      m_ccanc := []; m_acb := []; m_acanc := []; m_ainv := []; m_adec := [] |}
   | _ => None
   end.
 
@@ -231,7 +260,12 @@ Definition cntb (l : list bool) : nat := length (filter (fun x => x) l).
 Fixpoint zip3 {A B C} (a : list A) (b : list B) (c : list C) : list (A * B * C) :=
   match a, b, c with x :: a', y :: b', z :: c' => (x, y, z) :: zip3 a' b' c' | _, _, _ => [] end.
 
+Fixpoint zip5 {A B C D E} (a : list A) (b : list B) (c : list C) (d : list D) (e : list E) : list (A * B * C * D * E) :=
+  match a, b, c, d, e with x :: a', y :: b', z :: c', u :: d', v :: e' => (x, y, z, u, v) :: zip5 a' b' c' d' e' | _, _, _, _, _ => [] end.
+Definition padb (l : list bool) (n : nat) : list bool := (l ++ repeat false (n - length l))%list.
+
 Definition mon1 (m : mst) (e : list N) (p : pobs) : mst * list (nat * nat) :=
+  let vof (g : N) : N := if m_const m then 7 else g + 1 in
   let ng := length (po_gs p) in
   let spawned := Nat.ltb (m_ng m) ng in
   (* ---- reference machine ---- *)
@@ -250,6 +284,7 @@ Definition mon1 (m : mst) (e : list N) (p : pobs) : mst * list (nat * nat) :=
                end in
   let cref' := match e with [10; _] => (m_cref m ++ [nref_before])%list | _ => m_cref m end in
   let ckind' := match e with [10; k] => (m_ckind m ++ [k])%list | _ => m_ckind m end in
+  let ncons := length (po_cons p) in
   let cret' := map (fun x => let '(code, _, _, _, _, _) := x in N.eqb code 3) (po_cons p) in
   let raref' := map (fun x => n2n (snd x)) (po_relacts p) in
   let nin := cntb in1 in
@@ -262,14 +297,14 @@ Definition mon1 (m : mst) (e : list N) (p : pobs) : mst * list (nat * nat) :=
   let cur1 := m_cur m in
   let stored_now :=
     match e with
-    | [9; g] => if N.eqb (po_target p) (g + 1) && N.eqb (po_terr p) 0 then Some (g, 0)
+    | [9; g] => if N.eqb (po_target p) (vof g) && N.eqb (po_terr p) 0 then Some (g, 0)
                 else if nz (po_terr p) && negb (match m_cur m with Some (_, e0) => N.eqb e0 (po_terr p) | None => false end) then Some (g, po_terr p)
                 else None
     | _ => None
     end in
   let cur2 := match stored_now with Some x => Some x | None => cur1 end in
   let cur' := match cur2 with
-              | Some (g, e0) => if (if N.eqb e0 0 then N.eqb (po_target p) (g + 1) && N.eqb (po_terr p) 0 else N.eqb (po_terr p) e0) then cur2 else None
+              | Some (g, e0) => if (if N.eqb e0 0 then N.eqb (po_target p) (vof g) && N.eqb (po_terr p) 0 else N.eqb (po_terr p) e0) then cur2 else None
               | None => None
               end in
   (* ---- C08 ---- *)
@@ -332,9 +367,59 @@ Definition mon1 (m : mst) (e : list N) (p : pobs) : mst * list (nat * nat) :=
   let f10_3 := fails 10 3 (negb quiet ||
                  forallb (fun t => let '(iv, (_, _, _, _, fired, _)) := t in negb iv || N.eqb fired 1)
                          (combine inval' (po_cons p))) in
+  (* ---- C09, clause 5: released() of the newest, still running generation restarts resolution ---- *)
+  let f9_5 := fails 9 5 (match e with
+                         | [5; g] => negb (Nat.eqb (S (n2n g)) (m_ng m) && (let c := nth (n2n g) (m_gs m) 0 in N.eqb c 3 || N.eqb c 4)
+                                           && nz (m_ctx m) && Nat.ltb 0 (cntb (m_in m)))
+                                     || spawned
+                         | _ => true
+                         end) in
+  (* ---- C10: Access ---- *)
+  let ccanc' := map (fun ib => snd ib || match e with [11; c] => Nat.eqb (n2n c) (fst ib) | _ => false end)
+                    (combine (seq 0 ncons) (padb (m_ccanc m) ncons)) in
+  let acb0 := padb (m_acb m) ncons in
+  let acanc0 := padb (m_acanc m) ncons in
+  let ainv0 := padb (m_ainv m) ncons in
+  let ccanc0 := padb (m_ccanc m) ncons in
+  let adec0 := (m_adec m ++ repeat None (ncons - length (m_adec m)))%list in
+  let cur_err := match cur' with Some (_, e0) => e0 | None => 0 end in
+  let rows := combine (seq 0 ncons) (combine (zip5 acb0 acanc0 ainv0 ccanc0 adec0) (combine (combine ckind' cref') (combine ccanc' (po_cons p)))) in
+  (* per Access consumer: (in callback now, cancelled now, invalidated, decision, failing clauses) *)
+  let judge := fun row =>
+    let '(i, ((acb, acanc, ainv, ccb, adec), ((k, r), (ccn, (code, v, _, h, _, _))))) := row in
+    if negb (N.eqb k 2) then (false, false, false, None, [])
+    else
+      let cbnow := N.eqb code 6 in
+      let mine := match e with [13; c; _] => Nat.eqb (n2n c) i | _ => false end in
+      let started := cbnow && (negb acb || mine) in
+      let inv' := if started then false else ainv || (acb && match lost with Some _ => true | None => false end) in
+      let decided := match adec with Some _ => true | None => false end in
+      let decnow := negb decided && (existsb (Nat.eqb r) raref' || N.eqb code 3) in
+      let fromcb := mine && negb ccb && negb ainv in
+      let rc := match e with [13; _; res] => if N.eqb res 1 then nb acanc else res | _ => 0 end in
+      let expected := if mine && ccb then 1 else if fromcb then rc else if nz cur_err then cur_err else 1 in
+      let adec' := if decnow then Some (expected, fromcb) else adec in
+      let decided' := match adec' with Some _ => true | None => false end in
+      let c4 := fails 10 4 (negb started || match cur' with Some (g, e0) => N.eqb e0 0 && N.eqb v (vof g) | None => false end) in
+      let c5 := fails 10 5 (negb (cbnow && inv') || nz h) in
+      let c6 := fails 10 6 (negb (decnow && mine && negb ccb) || negb ainv || nz cur_err) in
+      let c6r := fails 10 6 (match adec' with Some (x, true) => negb (N.eqb code 3) || N.eqb v x | _ => true end) in
+      let c6q := fails 10 6 (negb (quiet && negb decided' && negb ccn && match cur' with Some (_, e0) => N.eqb e0 0 | None => false end) || cbnow) in
+      let c7 := fails 10 7 (negb (decnow && negb mine) || ccn || nz cur_err) in
+      let c7r := fails 10 7 (match adec' with Some (x, false) => negb (N.eqb code 3) || N.eqb v x | _ => true end) in
+      let c7q := fails 10 7 (negb (quiet && negb decided' && nz cur_err) || cbnow) in
+      (cbnow, cbnow && nz h, inv', adec', (c4 ++ c5 ++ c6 ++ c6r ++ c6q ++ c7 ++ c7r ++ c7q)%list) in
+  let judged := map judge rows in
+  let facc := concat (map (fun j => let '(_, _, _, _, f) := j in f) judged) in
+  let all := (f8_1 ++ f8_2 ++ f8_3 ++ f8_4 ++ f9_1 ++ f9_2 ++ f9_3 ++ f9_4 ++ f9_5 ++ f10_1 ++ f10_2 ++ f10_3)%list in
   ({| m_keep := m_keep m; m_ctx := ctx'; m_in := in1; m_kind := kind'; m_raref := raref'; m_cref := cref'; m_out := out';
-      m_called := called'; m_cur := cur'; m_ng := ng; m_inval := inval'; m_ckind := ckind'; m_cret := cret' |},
-   f8_1 ++ f8_2 ++ f8_3 ++ f8_4 ++ f9_1 ++ f9_2 ++ f9_3 ++ f9_4 ++ f10_1 ++ f10_2 ++ f10_3).
+      m_called := called'; m_cur := cur'; m_ng := ng; m_inval := inval'; m_ckind := ckind'; m_cret := cret';
+      m_const := m_const m; m_gs := po_gs p; m_ccanc := ccanc';
+      m_acb := map (fun j => let '(a, _, _, _, _) := j in a) judged;
+      m_acanc := map (fun j => let '(_, a, _, _, _) := j in a) judged;
+      m_ainv := map (fun j => let '(_, _, a, _, _) := j in a) judged;
+      m_adec := map (fun j => let '(_, _, _, a, _) := j in a) judged |},
+   ((if m_const m then [] else all) ++ facc)%list).
 
 Definition mon (m : option mst) (e o : list N) : option mst * list (nat * nat) :=
   match m with
